@@ -20,7 +20,7 @@ THOROUGH = {"examples": 8000, "shards": 16, "budget_s": 1500}
 ASSUMPTIONS = ["angle tolerance 3e-4 deg + the effect of mdtraj's documented snap of |component| < 1e-6 nm to zero; lengths 4e-6 relative",
                "after save+load the model is re-based on the loaded values (format precision is C01's subject); only completeness "
                "and closeness (2e-3 relative, 0.02 deg) are asserted there"]
-SAVE_FMTS = ["h5", "xtc", "trr", "dcd", "nc", "gro", "lammpstrj", "pdb"]
+SAVE_FMTS = ["h5", "xtc", "trr", "dcd", "nc", "gro", "lammpstrj", "pdb", "rst7", "ncrst", "dtr"]
 WHERE = {}
 
 
@@ -335,7 +335,10 @@ def run_case(case):
                     if t.n_atoms / max(vol0, 1e-12) > 500:
                         labels.append("skip-pdb-dummy-cell-heuristic")
                         continue
-                if fmt == "lammpstrj" and not complete:
+                if fmt in ("lammpstrj", "dtr") and not complete:
+                    continue
+                if fmt == "dtr" and n > 1 and not np.all(np.diff(t.time) > 0):
+                    labels.append("skip-dtr-times-not-ascending")   # the DTR writer documents and enforces ascending times
                     continue
                 with files.scratch() as d:
                     fn = os.path.join(d, "c." + fmt)
@@ -347,7 +350,18 @@ def run_case(case):
                         else:
                             labels.append("half-set-save-refused")
                         continue
-                    t2 = files.load(fn, fmt, t.topology)
+                    if fmt in ("rst7", "ncrst"):
+                        # one numbered restart file per frame: c.rst7.1 ... c.rst7.N (zero padded to equal width)
+                        w = len(str(n))
+                        ld = md.load_restrt if fmt == "rst7" else md.load_ncrestrt
+                        if n > 1:
+                            parts = [ld("%s.%0*d" % (fn, w, i + 1), top=t.topology) for i in range(n)]
+                            t2 = md.join(parts, check_topology=False)
+                            labels.append("numbered-restart-files")
+                        else:
+                            t2 = ld(fn, top=t.topology)
+                    else:
+                        t2 = files.load(fn, fmt, t.topology)
                 got = t2.unitcell_lengths is not None and t2.unitcell_angles is not None
                 if got != complete:
                     viol.append(("saveload-%s/completeness" % fmt, "input complete=%s, loaded complete=%s" % (complete, got)))
